@@ -10,7 +10,8 @@ slice keeps the length (extended-slice rule "len(source) == len(selection)" for 
 [x for x, m in zip(L, mask) if m]; a masked store takes a full-length or a compressed source.
 Anything else (out-of-range index, zero step, wrong lengths) must raise and leave the contents unchanged.
 """
-from c19_common import Codec, int_array, masks_of
+import imath
+from c19_common import Codec, int_array, masks_of, HUGE, huge_class, KEEP
 
 IDX = list(range(-7, 8))
 SS = [None] + IDX
@@ -156,6 +157,71 @@ class _X:
             else:
                 self.must_raise("index.setitem.array.int.out-of-range", what, lambda: a.__setitem__(i, self.src[1]))
             self.must_raise("index.setitem.array.int.wrong-length", "a[%d]=array(len 2)" % i, lambda: a.__setitem__(i, self.src[2]))
+
+    # -- (A2) integer indices far out of range ------------------------------------------------------
+    def huge_ints(self):
+        """Indices of magnitude 2^31 .. 2^64: every one is out of range for every array here, so every access must raise
+        and every store must leave the contents alone -- also when the value does not even fit the C index type."""
+        t, cd, n, a = self.t, self.cd, self.n, self.a
+        v = m = None
+        if n >= 2:
+            m = [1] * (n - 1) + [0]
+            v = a[int_array(m)]
+        for k in HUGE:
+            hc = huge_class(k)
+            t.cls("index.int.huge." + hc)
+            tag = "overflowing-index" if hc == "overflowing" else "huge-index"
+            for arr, nm in ((a, "a"), (self.ro, "ro")):
+                if arr is None: continue
+                t.add("transitions")
+                r, exc = self.attempt(lambda: arr[k])
+                if exc is None: t.fail("index.getitem.int." + tag, self.ctx("%s[%d]" % (nm, k)), "an exception", repr(r))
+            self.must_raise("index.setitem.int." + tag, "a[%d]=elem" % k, lambda: a.__setitem__(k, self.newv))
+            self.must_raise("index.setitem.int." + tag, "a[%d]=array(len 1)" % k, lambda: a.__setitem__(k, self.src[1]))
+            self.ro_store("index.readonly.setitem.scalar.int." + tag, "ro[%d]=elem" % k, lambda: self.ro.__setitem__(k, self.newv), True)
+            if v is not None:
+                ms = "".join(map(str, m))
+                t.add("transitions")
+                r, exc = self.attempt(lambda: v[k])
+                if exc is None: t.fail("index.mask.view.getitem." + tag, self.ctx("v=a[mask %s]; v[%d]" % (ms, k)), "an exception", repr(r))
+                self.must_raise("index.setitem.int." + tag, "v=a[mask %s]; v[%d]=elem" % (ms, k), lambda: v.__setitem__(k, self.newv))
+
+    def huge_slices(self):
+        """The same magnitudes as slice bounds and steps: a Python list clamps them (slice.indices), so must the arrays."""
+        t, cd, n, a, base = self.t, self.cd, self.n, self.a, self.base
+        HS = [2**31, -2**31 - 1, 2**63 - 1, -2**63, 2**63, -2**64]
+        H = [None, 1, -1] + HS
+        for start in H:
+            for stop in H:
+                for step in [None, 1, -1, 2, -2] + HS:
+                    if not any(isinstance(x, int) and abs(x) > 7 for x in (start, stop, step)): continue
+                    sl = slice(start, stop, step)
+                    what = "a[%s:%s:%s]" % tuple("" if x is None else x for x in (start, stop, step))
+                    idxs = list(range(*sl.indices(n)))
+                    k = len(idxs)
+                    sfx = sl.indices(n)[0] < 0
+                    t.cls("slice.huge-bound.neg-step-start-before-begin" if sfx else "slice.huge-bound")
+                    sel = [base[j] for j in idxs]
+                    r, exc = self.attempt(lambda: a[sl])
+                    if exc: t.fail(NSB if sfx else "index.getitem.slice.huge-bound", self.ctx(what), cd.want(sel), exc)
+                    elif not self.same_elems("index.getitem.slice.huge-bound", what, r, sel): continue
+                    t.add("transitions")
+                    _, exc = self.attempt(lambda: a.__setitem__(sl, self.newv))
+                    L = list(base)
+                    for j in idxs: L[j] = NEWV
+                    if exc: t.fail(NSB if sfx else "index.setitem.scalar.slice.huge-bound", self.ctx(what + "=elem"), "stored", exc)
+                    self.state_is("index.setitem.scalar.slice.huge-bound", what + "=elem", L)
+                    if k: self.restore()
+                    t.add("transitions")
+                    _, exc = self.attempt(lambda: a.__setitem__(sl, self.src[k]))
+                    L = list(base)
+                    for q, j in enumerate(idxs): L[j] = SRC0 + q
+                    if exc: t.fail(NSB if sfx else "index.setitem.array.slice.huge-bound", self.ctx(what + "=array(len %d)" % k), "stored", exc)
+                    self.state_is("index.setitem.array.slice.huge-bound", what + "=array(len %d)" % k, L)
+                    if k: self.restore()
+                    self.must_raise("index.setitem.array.slice.huge-bound.wrong-length", what + "=array(len %d)" % (k + 1),
+                                    lambda: a.__setitem__(sl, self.src[k + 1]))
+                    self.ro_store("index.readonly.setitem.scalar.slice", "ro" + what[1:] + "=elem", lambda: self.ro.__setitem__(sl, self.newv), k > 0)
 
     # -- (B) slices -------------------------------------------------------------------------------
     def slices(self):
@@ -373,6 +439,93 @@ class _X:
                         else: self.same_elems("index.ifelse.scalar", "ro.ifelse(%s, elem)" % ms, r, ws)
                         self.state_is("index.ifelse.modifies-self", "ro.ifelse(%s, ...)" % ms, base, self.ro)
 
+    # -- (D) mask values other than 0/1, mask objects other than a fresh dense IntArray ---------------
+    def mask_objects(self):
+        """An integer mask selects the elements whose mask entry is NON-ZERO (upstream's own test-suite counts
+        "numNonZeroMaskEntries": `if mask[i]`), whatever the non-zero value and however the mask array is laid out:
+        a strided IntArray (the .y view of a V3iArray whose .x/.z hold the opposite pattern), a masked reference of a longer
+        IntArray (the mask entries are every second element of its storage), a read-only IntArray."""
+        t, cd, n, a, base = self.t, self.cd, self.n, self.a, self.base
+        if n == 0: return
+        IMIN = -2**31
+        ENC = [("all 2", lambda q: 2), ("all -1", lambda q: -1), ("all INT_MIN", lambda q: IMIN), ("2,-1,INT_MIN,3,..", lambda q: (2, -1, IMIN, 3)[q % 4])]
+
+        def strided(vals):
+            o = imath.V3iArray(n)
+            for i, x in enumerate(vals): o[i] = imath.V3i(0 if x else 1, x, 0 if x else 7)
+            m = o.y; KEEP.append(o); return m
+
+        def masked(vals):
+            big = int_array([vals[i // 2] if i % 2 else (0 if vals[min(i // 2, n - 1)] else 5) for i in range(2 * n + 1)])
+            return big[int_array([i % 2 for i in range(2 * n + 1)])]
+
+        def readonly(vals):
+            m = int_array(vals); m.makeReadOnly(); return m
+
+        def readonly_masked(vals):
+            big = int_array([vals[i // 2] if i % 2 else (0 if vals[min(i // 2, n - 1)] else 5) for i in range(2 * n + 1)]); big.makeReadOnly()
+            return big[int_array([i % 2 for i in range(2 * n + 1)])]
+
+        variants = [("nonzero-values", nm, (lambda bits, f=f: int_array([f(q) if b else 0 for q, b in enumerate(bits)]))) for nm, f in ENC]
+        for kind, mkm in (("strided-mask", strided), ("masked-mask", masked), ("readonly-mask", readonly), ("readonly-masked-mask", readonly_masked)):
+            variants.append((kind, "0/1", (lambda bits, mkm=mkm: mkm(list(bits)))))
+            variants.append((kind, "2,-1,INT_MIN,3,..", (lambda bits, mkm=mkm: mkm([(2, -1, IMIN, 3)[q % 4] if b else 0 for q, b in enumerate(bits)]))))
+        for bits in masks_of(n):
+            sel = [i for i in range(n) if bits[i]]
+            cnt = len(sel)
+            for kind, enc, make in variants:
+                if kind == "nonzero-values" and cnt == 0: continue
+                t.cls("mask." + kind)
+                m = make(bits)
+                ms = "%s mask %s (entries %s)" % (kind, "".join(map(str, bits)), enc)
+                site = "index.mask.%s." % kind
+                if [m[i] != 0 for i in range(len(m))] != [b != 0 for b in bits]:
+                    t.fail("index.harness.mask-object", self.ctx(ms), bits, [m[i] for i in range(len(m))]); continue
+                r, exc = self.attempt(lambda: a[m])
+                if exc: t.fail(site + "getitem", self.ctx("a[%s]" % ms), cd.want([base[i] for i in sel]), exc)
+                else: self.same_elems(site + "getitem", "a[%s]" % ms, r, [base[i] for i in sel])
+                if self.ro is not None:
+                    r, exc = self.attempt(lambda: self.ro[m])
+                    if exc: t.fail(site + "getitem", self.ctx("ro[%s] (read-only twin)" % ms), cd.want([base[i] for i in sel]), exc)
+                    else: self.same_elems(site + "getitem", "ro[%s] (read-only twin)" % ms, r, [base[i] for i in sel])
+                t.add("transitions")
+                _, exc = self.attempt(lambda: a.__setitem__(m, self.newv))
+                L = list(base)
+                for i in sel: L[i] = NEWV
+                if exc: t.fail(site + "setitem", self.ctx("a[%s]=elem" % ms), "stored", exc)
+                self.state_is(site + "setitem", "a[%s]=elem" % ms, L)
+                if cnt: self.restore()
+                t.add("transitions")
+                _, exc = self.attempt(lambda: a.__setitem__(m, self.oth[n]))
+                L = list(base)
+                for i in sel: L[i] = OTH0 + i
+                if exc: t.fail(site + "setitem", self.ctx("a[%s]=array(len n)" % ms), "stored", exc)
+                self.state_is(site + "setitem", "a[%s]=array(len n)" % ms, L)
+                if cnt: self.restore()
+                if cnt != n:
+                    t.add("transitions")
+                    _, exc = self.attempt(lambda: a.__setitem__(m, self.src[cnt]))
+                    L = list(base)
+                    for q, i in enumerate(sel): L[i] = SRC0 + q
+                    if exc: t.fail(site + "setitem", self.ctx("a[%s]=array(len %d)" % (ms, cnt)), "stored", exc)
+                    self.state_is(site + "setitem", "a[%s]=array(len %d)" % (ms, cnt), L)
+                    if cnt: self.restore()
+                    bad = cnt + 1 if cnt + 1 != n else n + 1
+                    self.must_raise(site + "setitem.wrong-length", "a[%s]=array(len %d)" % (ms, bad), lambda: a.__setitem__(m, self.src[bad]))
+                self.ro_store("index.readonly.mask.setitem.scalar", "ro[%s]=elem" % ms, lambda: self.ro.__setitem__(m, self.newv), cnt > 0)
+                if cd.has_ifelse:
+                    ws = [base[i] if bits[i] else NEWV for i in range(n)]
+                    wv = [base[i] if bits[i] else OTH0 + i for i in range(n)]
+                    r, exc = self.attempt(lambda: a.ifelse(m, self.newv))
+                    if exc: t.fail(site + "ifelse", self.ctx("a.ifelse(%s, elem)" % ms), cd.want(ws), exc)
+                    else: self.same_elems(site + "ifelse", "a.ifelse(%s, elem)" % ms, r, ws)
+                    r, exc = self.attempt(lambda: a.ifelse(m, self.oth[n]))
+                    if exc: t.fail(site + "ifelse", self.ctx("a.ifelse(%s, array)" % ms), cd.want(wv), exc)
+                    else: self.same_elems(site + "ifelse", "a.ifelse(%s, array)" % ms, r, wv)
+                # the mask object itself is only read
+                if [m[i] != 0 for i in range(len(m))] != [b != 0 for b in bits]:
+                    t.fail(site + "mask-modified", self.ctx(ms), bits, [m[i] for i in range(len(m))])
+
     def run(self):
         t, n = self.t, self.n
         t.add("states")                                    # one (class, length) array configuration
@@ -380,7 +533,7 @@ class _X:
         if len(self.a) != n: t.fail("index.len", self.ctx("len(a)"), n, len(self.a))
         if self.ro is not None and len(self.ro) != n: t.fail("index.len", self.ctx("len(ro)"), n, len(self.ro))
         if not self.state_is("index.build", "a[i]=elem for i in range(n); [a[i] ...]", self.base): return
-        self.ints(); self.slices(); self.masks()
+        self.ints(); self.huge_ints(); self.slices(); self.huge_slices(); self.masks(); self.mask_objects()
         self.state_is("index.final-state", "array back at its baseline after all cases", self.base)
         if self.ro is not None: self.state_is("index.readonly.final-state", "read-only twin untouched after all cases", self.base, self.ro)
         if n == 3 and self.name in ("IntArray", "V3fArray", "StringArray"): t.sample("%s n=3: 15 int indices, %d slices, %d masks x get/set/ifelse" % (self.name, len(SS) ** 2 * len(STEPS), 4 + 8 + 16))
@@ -390,5 +543,6 @@ def run_item(item, t):
     _X(item, t).run()
 
 
-CLASSES = ["index.setitem.array.slice.source-is-self", "index.int.in-range", "index.int.negative", "index.int.out-of-range", "slice.zero-step", "slice.empty",
+CLASSES = ["mask.nonzero-values", "mask.strided-mask", "mask.masked-mask", "mask.readonly-mask", "mask.readonly-masked-mask", "index.int.huge.int-range", "index.int.huge.ssize-range", "index.int.huge.overflowing", "slice.huge-bound", "slice.huge-bound.neg-step-start-before-begin",
+           "index.setitem.array.slice.source-is-self", "index.int.in-range", "index.int.negative", "index.int.out-of-range", "slice.zero-step", "slice.empty",
            "slice.negative-step", "slice.neg-step-start-before-begin", "slice.clamped", "slice.generic", "mask.wrong-length", "mask.all-zero", "mask.all-one", "mask.mixed"]
